@@ -66,7 +66,9 @@ def analyse(fn, track_owned=True):
         t = blk["term"]
         depth_before_term[b] = st
         out = st
-        if t["k"] == "Call":
+        if t["k"] == "Call" and st == "ABORT":
+            pass        # an abort already under way (e.g. the residual of an expanded helper handed on by the caller's own `?`)
+        elif t["k"] == "Call":
             c = mir.callee(t)
             if c in (PUSH, POP) and not track_owned and owned(recv_root(t["args"][0])):
                 pass
